@@ -78,7 +78,7 @@ static void scn_batch(int mode, obs_t* o) {
             if (st != CARQUET_OK) { ERR(o, "batch_reader_next"); break; }
             int64_t rows = carquet_row_batch_num_rows(b); h = mc_mix(h, (uint64_t)rows);
             for (int c = 0; c < carquet_row_batch_num_columns(b); c++) { const void* data; const uint8_t* nulls; int64_t cnt; if (carquet_row_batch_column(b, c, &data, &nulls, &cnt) != CARQUET_OK) { ERR(o, "row_batch_column"); continue; }
-                h = mc_mix(h, (uint64_t)cnt); if (!nulls || (!data && cnt)) { ERR(o, "batch column without data or bitmap"); continue; } int64_t nn = 0; for (int64_t r = 0; r < cnt; r++) { int bit = (nulls[r >> 3] >> (r & 7)) & 1; h = mc_mix(h, (uint64_t)bit); if (!bit) nn++; }
+                h = mc_mix(h, (uint64_t)cnt); if (!data && cnt) { ERR(o, "batch column without data"); continue; } int64_t nn = 0; /* a NULL bitmap is documented as "no nulls": an answer, not an error */ for (int64_t r = 0; r < cnt; r++) { int bit = nulls ? (nulls[r >> 3] >> (r & 7)) & 1 : 0; h = mc_mix(h, (uint64_t)bit); if (!bit) nn++; }
                 int w = tbl_width(&g_hist.cols[c]); if (g_hist.cols[c].ptype == PT_BYTE_ARRAY) { const carquet_byte_array_t* ba = data; for (int64_t k = 0; k < nn; k++) { h = mc_mix(h, (uint64_t)ba[k].length); if (ba[k].length > 0 && ba[k].length < 4096) h = mc_mix(h, mc_hash(ba[k].data, (size_t)ba[k].length, 13)); } } else h = mc_mix(h, mc_hash(data, (size_t)nn * (size_t)w, 15)); }
             carquet_row_batch_free(b);
         }
